@@ -61,6 +61,8 @@ type Prog struct {
 	modMu       sync.Mutex
 	direct      map[*types.Var][]*ssa.Function
 	storerCache map[*types.Var]map[*ssa.Function]bool
+	scsOnce     sync.Once
+	scs         map[*ssa.Function][]ssa.Instruction
 }
 
 // Load loads ./... of the repository for one build configuration.
